@@ -80,8 +80,8 @@ Definition cover_note (c : cfg) (i : info) : list info :=
   let codes := dict_get (eff_ignores c) (iline i) in
   match icode i with
   | Some cd => if list_empty codes then []
-               else [mk_info (-1) (iline i) (icol i) (ispan i) None false false false
-                             (cover_msg cd codes) None (itarget i)]
+               else [mk_info (-1) (iline i) (icol i) (iendline i) (iendcol i) (ispan i) None false false false
+                             (cover_msg cd codes) None (itarget i) (ictx i) 0 false]
   | None => []
   end.
 
@@ -102,8 +102,10 @@ Definition run (c : cfg) (E : list info) : st := fold_left (add_error_info c) E 
 Definition used_at (u : list (Z * string)) (l : Z) : list string :=
   map snd (filter (fun m => fst m =? l) u).
 
-Definition simple_error (line : Z) (msg : string) (cd : ecode) : info :=
-  mk_info (-1) line (-1) [line] (Some cd) true false false msg None "".
+(* report_simple_error; import_ctx = the current import context, given by the caller *)
+Definition simple_error_ctx (ctx line : Z) (msg : string) (cd : ecode) : info :=
+  mk_info (-1) line (-1) line (-1) [line] (Some cd) true false false msg None "" ctx 0 false.
+Definition simple_error := simple_error_ctx 0.
 
 Fixpoint lookup_sub (m : list (string * list string)) (k : string) : list string :=
   match m with [] => [] | (k', v) :: t => if String.eqb k k' then v else lookup_sub t k end.
@@ -181,6 +183,86 @@ Definition remove_duplicates (errs : list info) : list info :=
   let '(f, removed) := rd_pass errs [] in
   filter (fun e => match iparent e with None => true | Some p => negb (mem_Z p removed) end) f.
 
+(* ---- the many-errors limiter (add_error_info: seen_import_error / has_many_errors / hidden) ----
+   `run` above is the machine with the limiter off.  The full machine below also keeps
+   seen_import_error and sets `hidden` on infos that arrive after an import error once the number of
+   collected infos reaches options.many_errors_threshold; the first time it also inserts the note
+   "(Skipping most remaining errors ...)".  Proofs.limiter_erasure relates the two machines. *)
+Record lim := mk_lim {
+  threshold : Z;          (* options.many_errors_threshold (< 0: off) *)
+  other_files : Z;        (* number of OTHER files with an entry in error_info_map *)
+  other_infos : Z         (* total number of infos collected for other files *)
+}.
+Record lst := mk_lst { lcore : st; seen_import : bool }.
+
+Definition is_import_code (i : info) : bool :=
+  match icode i with
+  | Some cd => mem_str (cname cd) ["import"; "import-untyped"; "import-not-found"]
+  | None => false
+  end.
+Definition skip_msg : string :=
+  "(Skipping most remaining errors due to unresolved imports or missing stubs; fix these first)".
+Definition has_many_errors (L : lim) (o : list info) : bool :=
+  if threshold L <? 0 then false
+  else (threshold L <=? other_files L + (if list_empty o then 0 else 1))
+       || (threshold L <=? other_infos L + len o).
+(* report_hidden_errors -> note_for_info: a copy of the position with code None, only_once, priority 0 *)
+Definition skip_note (i : info) : info :=
+  mk_info (-1) (iline i) (icol i) (iendline i) (iendcol i) (ispan i) None false false true
+          skip_msg None (itarget i) (ictx i) 0 false.
+
+Definition add_error_info_lim (c : cfg) (L : lim) (s : lst) (i : info) : lst :=
+  let s0 := lcore s in
+  match classify c i with
+  | Suppressed (Some m) => mk_lst (mk_st (out s0) (used s0 ++ [m]) (once s0)) (seen_import s)
+  | Suppressed None => s
+  | IgnoredFile => s
+  | Passed =>
+      if ionce i && mem_str (imsg i) (once s0) then s
+      else
+        let once1 := if ionce i then (once s0 ++ [imsg i])%list else once s0 in
+        let hide := seen_import s && negb (is_import_code i) && has_many_errors L (out s0) in
+        let note := if hide && negb (mem_str skip_msg once1) then [skip_note i] else [] in
+        let once2 := if hide && negb (mem_str skip_msg once1) then (once1 ++ [skip_msg])%list else once1 in
+        let i' := if hide then set_hidden i else i in
+        mk_lst (mk_st (out s0 ++ note ++ i' :: cover_note c i)%list (used s0) once2)
+               (seen_import s || is_import_code i)
+  end.
+Definition run_lim (c : cfg) (L : lim) (seen0 : bool) (E : list info) : lst :=
+  fold_left (add_error_info_lim c L) E (mk_lst init seen0).
+
+(* ---- sort_messages / sort_within_context ------------------------------------------------- *)
+(* sorted(...) is stable: insertion from the right, x goes before the first y with x <= y *)
+Fixpoint insert_by (le : info -> info -> bool) (x : info) (l : list info) : list info :=
+  match l with [] => [x] | y :: t => if le x y then x :: l else y :: insert_by le x t end.
+Definition sort_by (le : info -> info -> bool) (l : list info) : list info := fold_right (insert_by le) [] l.
+(* maximal runs of neighbours related by `same` (errors[i + 1] ~ errors[i]) *)
+Fixpoint group_adj (same : info -> info -> bool) (l : list info) : list (list info) :=
+  match l with
+  | [] => []
+  | x :: t => match group_adj same t with
+              | (y :: g) :: gs => if same x y then (x :: y :: g) :: gs else [x] :: (y :: g) :: gs
+              | gs => [x] :: gs
+              end
+  end.
+Definition le_linecol (x y : info) : bool :=
+  (iline x <? iline y) || ((iline x =? iline y) && (icol x <=? icol y)).
+Definition le_prio (x y : info) : bool := iprio x <=? iprio y.
+Definition same_ctx (x y : info) : bool := ictx x =? ictx y.
+Definition code_name_eqb (a b : option ecode) : bool :=
+  match a, b with Some x, Some y => String.eqb (cname x) (cname y) | None, None => true | _, _ => false end.
+Definition same_pos (x y : info) : bool :=
+  (iline x =? iline y) && (icol x =? icol y) && (iendline x =? iendline y) && (iendcol x =? iendcol y)
+  && code_name_eqb (icode x) (icode y).
+Definition sort_within_context (a : list info) : list info :=
+  List.concat (map (sort_by le_prio) (group_adj same_pos a)).
+Definition sort_messages (errs : list info) : list info :=
+  List.concat (map (fun g => sort_within_context (sort_by le_linecol g)) (group_adj same_ctx errs)).
+
+(* file_messages: what is rendered for a file *)
+Definition final_infos (o : list info) : list info :=
+  remove_duplicates (sort_messages (filter (fun i => negb (ihidden i)) o)).
+
 (* ---- what is printed, as far as the exit status is concerned ----------------------------- *)
 (* format_messages_default, one line per message:  f"{srcloc}: {severity}: {message}" + "  [code]" *)
 Record pmsg := mk_pmsg {
@@ -203,3 +285,7 @@ Definition to_pmsg (srcloc : info -> string) (hide_codes : bool) (show_note_code
 
 (* process exit status of a run whose printed messages are `msgs`; blockers = CompileError raised *)
 Definition exit_status (msgs : list pmsg) (blockers : bool) : Z := exit_code (map fmt msgs) blockers.
+
+(* the lines printed for a file whose error_info_map entry is o *)
+Definition printed (srcloc : info -> string) (hide_codes : bool) (show_note_codes : list string) (o : list info) : list pmsg :=
+  map (to_pmsg srcloc hide_codes show_note_codes) (final_infos o).
